@@ -110,6 +110,22 @@ def loopy_kernel(which, n):
                               is_input=False)],
                 name="duo_b", lang_version=(2018, 2))
             k = lp.merge([ka, kb])
+        elif which in ("nest2", "nest3"):
+            # an entry kernel calling a callee kernel that lives next to it in
+            # the translation unit (the entry kernel holds only its NAME)
+            callee = lp.make_function(
+                f"{{[j]: 0<=j<{n}}}", f"y[j] = {which[-1]}*x[j]",
+                [lp.GlobalArg("x", shape=(n,), dtype=np.float64),
+                 lp.GlobalArg("y", shape=(n,), dtype=np.float64,
+                              is_output=True)],
+                name="scale", lang_version=(2018, 2))
+            caller = lp.make_kernel(
+                f"{{[i]: 0<=i<{n}}}", "[i]: out[i] = scale([i]: a[i])",
+                [lp.GlobalArg("a", shape=(n,), dtype=np.float64),
+                 lp.GlobalArg("out", shape=(n,), dtype=np.float64,
+                              is_output=True)],
+                name="apply_nest", lang_version=(2018, 2))
+            k = lp.merge([caller, callee])
         else:
             raise ValueError(which)
         # loopy's default for this option is sys.flags.optimize: pin it, so
@@ -342,6 +358,8 @@ def apply_step(step, vals, shared=None, salt=0):
             return call_loopy(knl, {"a": a[0]}, "twoout")[p["out"]]
         elif p["knl"] == "duo":
             return call_loopy(knl, {"a": a[0]}, p["entry"])["out"]
+        elif p["knl"] in ("nest2", "nest3"):
+            return call_loopy(knl, {"a": a[0]}, "apply_nest")["out"]
         else:
             bindings = {"x": a[0], "y": a[1]}
             if p.get("rev"):
@@ -355,9 +373,15 @@ def apply_step(step, vals, shared=None, salt=0):
                 {p["name"]: a[0], p["name"] + "_s": -a[0]})[p["name"]]
         return pt.make_dict_of_named_arrays({p["name"]: a[0]})[p["name"]]
     if op == "tagged":
-        return a[0].tagged(htags.make_tag(p["tag"]))
+        res = a[0].tagged(htags.make_tag(p["tag"]))
+        for t in p.get("more", ()):
+            res = res.tagged(htags.make_tag(t))
+        return res
     if op == "axis_tagged":
-        return a[0].with_tagged_axis(p["axis"], htags.make_tag(p["tag"]))
+        res = a[0].with_tagged_axis(p["axis"], htags.make_tag(p["tag"]))
+        for t in p.get("more", ()):
+            res = res.with_tagged_axis(p["axis"], htags.make_tag(t))
+        return res
     if op == "untagged":
         return a[0].without_tags(htags.make_tag(p["tag"]), verify_existence=False)
     if op == "recv":
@@ -403,6 +427,7 @@ class _G:
         # "bulk" recipes wrap data on both sides of the sizes at which
         # allocators and caches change strategy (kilobytes to a megabyte);
         # everything else stays tiny
+        self.focus = None
         self.bulk = profile == "any" and rng.random() < 0.15
         self.max_size = (1 << 17) if self.bulk else 96
 
@@ -527,6 +552,9 @@ class _G:
                  "loopy", "tagged", "axis_tagged", "untagged", "named"]
         if self.profile == "any":
             kinds += ["recv", "send", "send"]
+        if self.focus:
+            # a "focused" recipe: one of the rarer node families dominates
+            kinds += [self.focus] * 14
         k = rng.choice(kinds)
         a = self.pick()
         if a is None:
@@ -742,17 +770,21 @@ class _G:
             if cand is None:
                 return None
             kk = rng.random()
-            if kk < 0.3:
+            if kk < 0.2:
                 return self.try_step({"op": "loopy", "args": [cand],
                                       "p": {"knl": "twice"}})
-            if kk < 0.45:
+            if kk < 0.35:
                 return self.try_step({"op": "loopy", "args": [cand],
                                       "p": {"knl": "twoout",
                                             "out": rng.choice(["o1", "o2"])}})
-            if kk < 0.6 and self.profile == "any":
+            if kk < 0.5 and self.profile == "any":
                 return self.try_step({"op": "loopy", "args": [cand],
                                       "p": {"knl": "duo", "entry": rng.choice(
                                           ["duo_a", "duo_b"])}})
+            if kk < 0.78:
+                return self.try_step({"op": "loopy", "args": [cand],
+                                      "p": {"knl": rng.choice(
+                                          ["nest2", "nest3"])}})
             other = self.pick(lambda v: v.ndim == 1 and v.dtype == np.float64
                               and v.shape == self.vals[cand].shape)
             return self.try_step({"op": "loopy", "args": [cand, other],
@@ -772,15 +804,19 @@ class _G:
                 return None
             va = self.vals[a]
             nd = va.ndim
+        # (half of the time several tags at once: unordered collections with
+        # two or more members are where iteration order can show)
+        more = [self.new_tag() for _ in range(rng.randint(1, 3))] \
+            if rng.random() < 0.5 else []
         if k == "tagged":
             return self.try_step({"op": "tagged", "args": [a],
-                                  "p": {"tag": self.new_tag()}})
+                                  "p": {"tag": self.new_tag(), "more": more}})
         if k == "axis_tagged":
             if nd == 0:
                 return None
             return self.try_step({"op": "axis_tagged", "args": [a],
                                   "p": {"axis": rng.randrange(nd),
-                                        "tag": self.new_tag()}})
+                                        "tag": self.new_tag(), "more": more}})
         if k == "untagged":
             from pytato.array import InputArgumentBase
             src = self.pick(lambda v: len(getattr(v, "tags", ())) > 0
@@ -812,6 +848,16 @@ def gen_recipe(rng: random.Random, profile="any", nsteps=None) -> dict:
     """profile "codegen": nothing generate_loopy cannot lower (no distributed
     nodes); "any": every node kind."""
     g = _G(rng, profile)
+    if rng.random() < 0.3:
+        g.focus = rng.choice(["loopy", "loopy", "call", "csr", "einsum",
+                              "advidx", "named", "stack", "concatenate"]
+                             + (["send", "recv"] if profile == "any" else []))
+        if g.focus == "loopy":
+            # loopy calls need a 1-d float64 operand
+            g.nph += 1
+            g.try_step({"op": "ph", "args": [], "p": {
+                "name": f"p{g.nph}", "shape": [rng.choice([2, 3, 4])],
+                "dtype": "float64"}})
     for _ in range(rng.randint(1, 3)):
         g.leaf()
     if not g.vals:
